@@ -1,5 +1,6 @@
-// kernels.go — a deliberately tiny Go→Lean translator for the decision kernels of rules/standard (P4) and of
-// services/checker/static and services/process/standard (P7, second half of this file).
+// kernels.go — a deliberately tiny Go→Lean translator for the decision kernels of rules/standard (P4), of
+// services/checker/static and services/process/standard (P7, second half of this file) and of util/scatter.go,
+// the gRPC receiver's senderID, OnCommit, getGeneration and peers.Suitable (P9, last part of this file).
 //
 // It is a guard-chain extractor, not a Go compiler: the body of each kernel is read as a sequence of
 // guards (`if cond { …log…; return rules.X }`), local aliases, state-field updates and a final return,
@@ -40,6 +41,7 @@ const (
 	tString
 	tBytes
 	tStrList
+	tGoInt // Go `int` (64-bit two's complement), emitted as a Lean Int kept in range by wrapI64 (P9)
 )
 
 type lexpr struct {
@@ -131,6 +133,32 @@ var kernelSpecs = []kernelSpec{
 		name: "fixedAcceptsGen", guards: "fixedAcceptsGuards", model: "Dirk.Dkg.fixedAccepts",
 		pkgLog: true, custom: transOnContribute,
 	},
+	// ---- P9 ----
+	{
+		file: "util/scatter.go", fn: "calculateExtentSize",
+		name: "extentSizeGen", guards: "extentSizeGuards", model: "Dirk.extentSize",
+		custom: transExtentSize,
+	},
+	{
+		file: "services/api/grpc/handlers/receiver/helpers.go", fn: "senderID",
+		name: "senderIdGen", guards: "senderIdGuards", model: "Dirk.Dkg.senderId (the name → id resolution it presupposes)",
+		custom: transSenderID,
+	},
+	{
+		file: "services/process/standard/service.go", fn: "OnCommit",
+		name: "commitAcceptsGen", guards: "commitAcceptsGuards", model: "Dirk.Dkg.onCommit",
+		pkgLog: true, custom: transOnCommit,
+	},
+	{
+		file: "services/process/standard/generation.go", fn: "getGeneration",
+		name: "generationExpiredGen", guards: "generationExpiredGuards", model: "Dirk.Dkg.active",
+		pkgLog: true, custom: transGetGeneration,
+	},
+	{
+		file: "services/peers/static/service.go", fn: "Suitable",
+		name: "suitableRefusesGen", guards: "suitableRefusesGuards", model: "Dirk.suitableAlloc",
+		pkgLog: true, custom: transSuitable,
+	},
 }
 
 var leanDomains = map[string]string{
@@ -172,6 +200,14 @@ type ktrans struct {
 	opaqueI []string          // identifiers those calls mention (must not be shadowed)
 	elemSrc string            // source text of the inner loop's element, e.g. "path.operations[i]"
 	elemIdx string            // … and its index variable
+	// P9 kernels
+	repo      string
+	lenSel    map[string]string // source text of a selector whose len() is an input ↦ Lean parameter
+	sinceOf   map[string]string // source text of X in time.Since(X) ↦ Lean parameter holding X (the result is `now - X`)
+	procs     string            // Lean parameter standing for runtime.GOMAXPROCS(0) ("" = not readable)
+	divChecks []string          // divisors (Lean text) the statement being translated divides by: zero ⇒ run-time panic
+	logical   int               // depth of && / || operands being translated (a division there would be conditional)
+	pkgErrs   map[string]bool   // package-level `var ErrX = errors.New(…)`
 }
 
 // reserved: names a kernel must not rebind (inputs, the state, packages and builtins the translator interprets).
@@ -181,7 +217,7 @@ func (k *ktrans) reserved(name string) bool {
 		"strings", "regexp", "errors", "e2wallet", "int", "uint32", "bls", "err":
 		return true
 	}
-	return name == k.recv || (k.spec.stateVar != "" && name == k.spec.stateVar) || k.roots[name]
+	return name == k.recv || (k.spec.stateVar != "" && name == k.spec.stateVar) || k.roots[name] || k.pkgErrs[name]
 }
 
 func (k *ktrans) fail(n ast.Node, format string, a ...interface{}) {
@@ -206,9 +242,9 @@ func (k *ktrans) coerce(n ast.Node, l lexpr, t ltype) lexpr {
 	if l.t == t {
 		return l
 	}
-	if l.t == tUntyped && (t == tNat || t == tInt) {
-		if t == tInt && l.s == "maxI64" {
-			return lexpr{"(maxI64 : Int)", tInt, true}
+	if l.t == tUntyped && (t == tNat || t == tInt || t == tGoInt) {
+		if (t == tInt || t == tGoInt) && l.s == "maxI64" {
+			return lexpr{"(maxI64 : Int)", t, true}
 		}
 		if t == tNat && strings.HasPrefix(l.s, "(-") {
 			k.fail(n, "negative constant in an unsigned context")
@@ -350,6 +386,17 @@ func (k *ktrans) expr(e ast.Expr, env map[string]lexpr) lexpr {
 			}
 		case fn == "len" && len(x.Args) == 1 && k.isLenParam(x.Args[0], env):
 			return lexpr{k.lenOf[src(x.Args[0])], tNat, true}
+		case fn == "len" && len(x.Args) == 1 && k.lenSel[src(x.Args[0])] != "":
+			// P9: the length of a collection that is an input of the kernel, e.g. len(generation.sharedSecrets)
+			k.unshadowed(x.Args[0], env)
+			return lexpr{k.lenSel[src(x.Args[0])], tNat, true}
+		case (fn == "time.Since" || fn == "time.Now().Sub") && len(x.Args) == 1 && k.sinceOf[src(x.Args[0])] != "":
+			// P9: elapsed time since an input instant (monotonic clock: not negative), as the model's truncated `now - started`
+			k.unshadowed(x.Args[0], env)
+			return lexpr{"now - " + k.sinceOf[src(x.Args[0])], tNat, false}
+		case fn == "runtime.GOMAXPROCS" && k.procs != "" && len(x.Args) == 1 && src(x.Args[0]) == "0":
+			// P9: a query (argument 0 does not change the setting); the runtime guarantees a value >= 1
+			return lexpr{k.procs, tGoInt, true}
 		case k.opaque[src(x)] != "":
 			// an opaque Bool input of the kernel, e.g. verifyContribution(generation.id, secret, vVec)
 			for _, id := range k.opaqueI {
@@ -414,7 +461,9 @@ func (k *ktrans) expr(e ast.Expr, env map[string]lexpr) lexpr {
 	case *ast.BinaryExpr:
 		switch x.Op {
 		case token.LAND, token.LOR:
+			k.logical++
 			a, b := k.expr(x.X, env), k.expr(x.Y, env)
+			k.logical--
 			if !isLogical(a.t) || !isLogical(b.t) {
 				k.fail(e, "logical operator on non-booleans")
 			}
@@ -425,8 +474,14 @@ func (k *ktrans) expr(e ast.Expr, env map[string]lexpr) lexpr {
 			return lexpr{paren(a) + op + paren(b), tProp, false}
 		}
 		switch x.Op {
+		case token.ADD, token.SUB, token.MUL, token.QUO, token.REM:
+			if r, ok := k.goIntArith(x, env); ok {
+				return r
+			}
+		}
+		switch x.Op {
 		case token.ADD:
-			// string concatenation (integer addition could overflow: not translated)
+			// string concatenation (integer addition on Nat / Int could overflow: not translated; Go `int`: goIntArith)
 			a, b := k.expr(x.X, env), k.expr(x.Y, env)
 			if a.t != tString || b.t != tString {
 				k.fail(e, "+ on other than strings")
@@ -471,7 +526,7 @@ func (k *ktrans) expr(e ast.Expr, env map[string]lexpr) lexpr {
 				b = k.coerce(e, b, a.t)
 			}
 			switch a.t {
-			case tNat, tInt:
+			case tNat, tInt, tGoInt:
 			case tString:
 				if x.Op != token.EQL && x.Op != token.NEQ {
 					k.fail(e, "string ordering")
@@ -500,7 +555,7 @@ func pureArg(e ast.Expr) bool {
 		return pureArg(x.X)
 	case *ast.CallExpr:
 		switch src(x.Fun) {
-		case "fmt.Sprintf", "uint64", "int64", "len", "time.Since":
+		case "fmt.Sprintf", "uint64", "int64", "len", "time.Since", "uint32", "int":
 			for _, a := range x.Args {
 				if !pureArg(a) {
 					return false
@@ -929,7 +984,8 @@ func translateKernel(repo string, spec *kernelSpec) (out string) {
 	sp := *spec // custom translators fill in the tables of readable inputs once they know the local names
 	spec = &sp
 	k := &ktrans{spec: spec, silent: map[string]bool{}, upd: map[string]lexpr{}, inScope: spec.stateIsParam,
-		roots: map[string]bool{}, u32: map[string]bool{}, lenOf: map[string]string{}, opaque: map[string]string{}}
+		roots: map[string]bool{}, u32: map[string]bool{}, lenOf: map[string]string{}, opaque: map[string]string{},
+		repo: repo, lenSel: map[string]string{}, sinceOf: map[string]string{}, pkgErrs: map[string]bool{}}
 	fd := funcDecl(parse(filepath.Join(repo, spec.file)), spec.fn)
 	if fd == nil || fd.Body == nil {
 		k.fail(nil, "function %s not found in %s", spec.fn, spec.file)
@@ -1031,11 +1087,15 @@ func translateKernel(repo string, spec *kernelSpec) (out string) {
 func writeKernels(repo, dir string) {
 	var b strings.Builder
 	b.WriteString("/-\n  Dirk.Gen.Kernels — GENERATED — do not edit.  Regenerated on every run by /verif/factx (kernels.go) from the\n" +
-		"  Go source of the decision kernels (rules/standard, services/checker/static, services/process/standard);\n" +
+		"  Go source of the decision kernels (rules/standard, services/checker/static, services/process/standard,\n" +
+		"  util/scatter.go, services/api/grpc/handlers/receiver, services/peers/static);\n" +
 		"  Dirk/Props/KernelsEq.lean proves each definition\n" +
 		"  equal to the hand-written model function.  A kernel outside the translatable fragment appears as\n" +
 		"  `kernelUntranslatable_<name>` instead, and KernelsEq.lean does not build.\n-/\n" +
-		"import Dirk.Model.Rules\nimport Dirk.Model.Checker\n\nset_option linter.unusedVariables false\n\nnamespace Dirk.Gen\n\n")
+		"import Dirk.Model.Rules\nimport Dirk.Model.Checker\n\nset_option linter.unusedVariables false\n\nnamespace Dirk.Gen\n\n" +
+		"/-- Go `int` arithmetic (64-bit two's complement): the result of `+ - * /` reduced to the representable range\n" +
+		"    (fixed text, not translated from any source). -/\n" +
+		"def wrapI64 (x : Int) : Int := (x + 9223372036854775808) % 18446744073709551616 - 9223372036854775808\n\n")
 	for i := range kernelSpecs {
 		b.WriteString(translateKernel(repo, &kernelSpecs[i]))
 		b.WriteString("\n")
@@ -1206,17 +1266,21 @@ func (k *ktrans) isRefusal(st ast.Stmt, nres int) bool {
 	if !ok || len(r.Results) != nres || nres == 0 {
 		return false
 	}
-	call, ok := r.Results[nres-1].(*ast.CallExpr)
-	if !ok {
-		return false
-	}
-	fn := src(call.Fun)
-	if fn != "errors.New" && fn != "fmt.Errorf" {
-		return false
-	}
-	for _, a := range call.Args {
-		if !pureArg(a) {
+	if id, isId := r.Results[nres-1].(*ast.Ident); isId && k.pkgErrs[id.Name] {
+		// P9: a package-level `var ErrX = errors.New(…)` (never nil; reserved, so not rebound locally)
+	} else {
+		call, ok := r.Results[nres-1].(*ast.CallExpr)
+		if !ok {
 			return false
+		}
+		fn := src(call.Fun)
+		if fn != "errors.New" && fn != "fmt.Errorf" {
+			return false
+		}
+		for _, a := range call.Args {
+			if !pureArg(a) {
+				return false
+			}
 		}
 	}
 	for _, res := range r.Results[:nres-1] {
@@ -1971,4 +2035,1032 @@ func (k *ktrans) membershipID(r *ast.RangeStmt, env map[string]lexpr, declared m
 	}
 	env[flag.Name] = lexpr{"listed", tBool, true}
 	return flag.Name + " := (" + sender + " ∈ IDs of " + listSrc + ")  [for-range membership loop]"
+}
+
+// =============================================================================================
+// P9: five more kernels (calculateExtentSize, senderID, OnCommit, getGeneration, Suitable).  As in P7 each has its
+// own small statement walker on top of the shared expression translator.
+
+// rootIdent: the identifier a selector / index / call chain starts from ("" if there is none).
+func rootIdent(e ast.Expr) string {
+	for {
+		switch x := e.(type) {
+		case *ast.Ident:
+			return x.Name
+		case *ast.SelectorExpr:
+			e = x.X
+		case *ast.IndexExpr:
+			e = x.X
+		case *ast.CallExpr:
+			e = x.Fun
+		case *ast.ParenExpr:
+			e = x.X
+		default:
+			return ""
+		}
+	}
+}
+
+// unshadowed: the input expression e is still what the kernel table says (its root is not a local alias).
+func (k *ktrans) unshadowed(e ast.Expr, env map[string]lexpr) {
+	if r := rootIdent(e); r == "" {
+		k.fail(e, "input expression without a root identifier")
+	} else if _, shadow := env[r]; shadow {
+		k.fail(e, "input shadowed by a local")
+	}
+}
+
+// goIntArith: + - * / % on Go `int` values.  Results of + - * / are reduced to the int64 range (wrapI64); a division
+// by anything but a non-zero literal records its divisor in k.divChecks (zero ⇒ run-time panic), which the statement
+// walker turns into an explicit `none` result.  ok = false: neither operand is a Go int (not ours).
+func (k *ktrans) goIntArith(x *ast.BinaryExpr, env map[string]lexpr) (lexpr, bool) {
+	saved := len(k.divChecks)
+	a, b := k.expr(x.X, env), k.expr(x.Y, env)
+	if a.t != tGoInt && b.t != tGoInt {
+		k.divChecks = k.divChecks[:saved]
+		return lexpr{}, false
+	}
+	a, b = k.coerce(x, a, tGoInt), k.coerce(x, b, tGoInt)
+	switch x.Op {
+	case token.ADD:
+		return lexpr{"wrapI64 (" + a.s + " + " + b.s + ")", tGoInt, false}, true
+	case token.SUB:
+		return lexpr{"wrapI64 (" + a.s + " - " + paren(b) + ")", tGoInt, false}, true
+	case token.MUL:
+		return lexpr{"wrapI64 (" + paren(a) + " * " + paren(b) + ")", tGoInt, false}, true
+	}
+	if lit, isLit := x.Y.(*ast.BasicLit); !isLit || lit.Kind != token.INT || b.s == "0" {
+		if k.logical > 0 {
+			k.fail(x, "division by a non-constant under && / || (evaluated conditionally)")
+		}
+		k.divChecks = append(k.divChecks, b.s)
+	}
+	if x.Op == token.QUO {
+		return lexpr{"wrapI64 (Int.tdiv " + paren(a) + " " + paren(b) + ")", tGoInt, false}, true
+	}
+	return lexpr{"Int.tmod " + paren(a) + " " + paren(b), tGoInt, false}, true
+}
+
+var leanReservedWords = map[string]bool{
+	"at": true, "meta": true, "end": true, "from": true, "have": true, "show": true, "fun": true, "let": true, "in": true,
+	"do": true, "then": true, "else": true, "if": true, "match": true, "with": true, "where": true, "open": true,
+	"section": true, "namespace": true, "def": true, "theorem": true, "example": true, "instance": true,
+	"structure": true, "class": true, "inductive": true, "by": true, "using": true, "deriving": true, "import": true,
+	"export": true, "private": true, "protected": true, "mutual": true, "universe": true, "variable": true,
+	"macro": true, "syntax": true, "notation": true, "infix": true, "prefix": true, "postfix": true, "return": true,
+	"for": true, "unless": true, "try": true, "catch": true, "finally": true, "nomatch": true, "nofun": true,
+	"suffices": true, "calc": true, "local": true, "scoped": true, "partial": true, "unsafe": true, "noncomputable": true,
+	"abbrev": true, "axiom": true, "opaque": true, "extends": true, "mut": true, "true": true, "false": true,
+	"some": true, "none": true, "wrapI64": true, "decide": true, "public": true, "module": true, "set_option": true,
+	"attribute": true, "omit": true, "include": true, "elab": true, "initialize": true, "builtin_initialize": true,
+}
+
+// leanLocal: a Go local's name used as a Lean `let` name (letters and digits only, not a Lean word, not a parameter).
+func (k *ktrans) leanLocal(n ast.Node, name string, params ...string) string {
+	ok := name != ""
+	for i, c := range name {
+		switch {
+		case c >= 'a' && c <= 'z', c >= 'A' && c <= 'Z':
+		case c >= '0' && c <= '9' && i > 0:
+		default:
+			ok = false
+		}
+	}
+	if !ok || leanReservedWords[name] {
+		k.fail(n, "local name %q cannot be used as a Lean identifier", name)
+	}
+	for _, p := range params {
+		if name == p {
+			k.fail(n, "local name %q collides with a parameter of the generated definition", name)
+		}
+	}
+	return name
+}
+
+// ---- 1. calculateExtentSize: straight-line Go `int` arithmetic ----
+//
+//	x := e | x = e | x++ | x-- | x += e | x -= e          ↦ let x : Int := …
+//	if c { return e }                                      ↦ if c then some e else
+//	if c { x = e }  (one assignment to an outer local)     ↦ let x : Int := if c then … else x
+//	return e  (last statement)                             ↦ some e
+//
+// The result is an Option: `none` = the Go code would panic (division by zero).  runtime.GOMAXPROCS(0) is the
+// parameter `procs`.
+
+func (k *ktrans) flushDivChecks(n ast.Node, lines *[]string, conditional bool) {
+	if conditional && len(k.divChecks) > 0 {
+		k.fail(n, "division by a non-constant inside a conditional block")
+	}
+	for _, d := range k.divChecks {
+		*lines = append(*lines, "if "+d+" = 0 then none else  -- integer divide by zero: run-time panic")
+	}
+	k.divChecks = nil
+}
+
+// intUpdate: the local and its new value for `x := e`, `x = e`, `x += e`, `x -= e`, `x++`, `x--`.
+func (k *ktrans) intUpdate(st ast.Stmt, env map[string]lexpr) (name string, val lexpr, define, ok bool) {
+	one := &ast.BasicLit{Kind: token.INT, Value: "1"}
+	var lhs, rhs ast.Expr
+	var op token.Token
+	switch x := st.(type) {
+	case *ast.IncDecStmt:
+		lhs, rhs, op = x.X, one, token.ADD
+		if x.Tok == token.DEC {
+			op = token.SUB
+		}
+	case *ast.AssignStmt:
+		if len(x.Lhs) != 1 || len(x.Rhs) != 1 {
+			k.fail(st, "unsupported assignment")
+		}
+		lhs, rhs = x.Lhs[0], x.Rhs[0]
+		switch x.Tok {
+		case token.DEFINE:
+			define = true
+		case token.ASSIGN:
+		case token.ADD_ASSIGN:
+			op = token.ADD
+		case token.SUB_ASSIGN:
+			op = token.SUB
+		default:
+			k.fail(st, "unsupported assignment operator")
+		}
+	default:
+		return "", lexpr{}, false, false
+	}
+	id, isId := lhs.(*ast.Ident)
+	if !isId || id.Name == "_" || k.reserved(id.Name) {
+		k.fail(st, "assignment to other than a plain local")
+	}
+	if _, known := env[id.Name]; !define && !known {
+		k.fail(st, "assignment to an unknown variable")
+	}
+	if op != 0 {
+		// x op= e  is  x = x op (e)
+		rhs = &ast.BinaryExpr{X: id, Op: op, Y: &ast.ParenExpr{X: rhs}}
+	}
+	val = k.expr(rhs, env)
+	if val.t == tUntyped {
+		val = k.coerce(st, val, tGoInt) // an untyped constant assigned to a new local has type int
+	}
+	if val.t != tGoInt {
+		k.fail(st, "local of a type other than int")
+	}
+	return id.Name, val, define, true
+}
+
+func transExtentSize(k *ktrans, fd *ast.FuncDecl) string {
+	ps := flatParams(fd)
+	if fd.Recv != nil || len(ps) != 1 || ps[0].typ != "int" || ps[0].name == "_" || k.reserved(ps[0].name) || resultTypes(fd) != "int" {
+		k.fail(nil, "%s is not func(int) int", k.spec.fn)
+	}
+	k.roots[ps[0].name] = true
+	k.procs = "procs"
+	env := map[string]lexpr{ps[0].name: {"items", tGoInt, true}}
+	var lines, texts []string
+	bind := func(st ast.Stmt, name string, v string) {
+		lean := k.leanLocal(st, name, "items", "procs")
+		lines = append(lines, "let "+lean+" : Int := "+v)
+		env[name] = lexpr{lean, tGoInt, true}
+	}
+	closed := false
+	for _, st := range fd.Body.List {
+		if closed {
+			k.fail(st, "statement after the final return")
+		}
+		if k.silentStmt(st) {
+			continue
+		}
+		if name, val, _, ok := k.intUpdate(st, env); ok {
+			k.flushDivChecks(st, &lines, false)
+			bind(st, name, val.s)
+			texts = append(texts, src(st))
+			continue
+		}
+		switch x := st.(type) {
+		case *ast.ReturnStmt:
+			if len(x.Results) != 1 {
+				k.fail(st, "return of other than one value")
+			}
+			v := k.coerce(st, k.expr(x.Results[0], env), tGoInt)
+			k.flushDivChecks(st, &lines, false)
+			lines = append(lines, "some "+paren(v))
+			texts = append(texts, src(st))
+			closed = true
+		case *ast.IfStmt:
+			if _, ok := plainIf(st); !ok {
+				k.fail(st, "if with init or else")
+			}
+			c := k.cond(x.Cond, env)
+			k.flushDivChecks(st, &lines, false) // the condition is evaluated whenever control gets here
+			var body []ast.Stmt
+			for _, bs := range x.Body.List {
+				if !k.silentStmt(bs) {
+					body = append(body, bs)
+				}
+			}
+			if len(body) != 1 {
+				k.fail(st, "conditional block is not a single return or a single assignment")
+			}
+			if r, isRet := body[0].(*ast.ReturnStmt); isRet {
+				if len(r.Results) != 1 {
+					k.fail(st, "return of other than one value")
+				}
+				v := k.coerce(st, k.expr(r.Results[0], env), tGoInt)
+				k.flushDivChecks(st, &lines, true)
+				lines = append(lines, "if "+c.s+" then some "+paren(v)+" else")
+				texts = append(texts, src(x.Cond)+" => return "+src(r.Results[0]))
+				continue
+			}
+			name, val, define, ok := k.intUpdate(body[0], env)
+			if !ok || define {
+				k.fail(st, "conditional block is not a single return or a single assignment to an outer local")
+			}
+			k.flushDivChecks(st, &lines, true)
+			bind(st, name, "if "+c.s+" then "+val.s+" else "+env[name].s)
+			texts = append(texts, src(x.Cond)+" => "+src(body[0]))
+		default:
+			k.fail(st, "unsupported statement")
+		}
+	}
+	if !closed {
+		k.fail(nil, "%s does not end in a return", k.spec.fn)
+	}
+	var b strings.Builder
+	k.docHead(&b, "Go `int` arithmetic statement by statement (`/` = Int.tdiv, `%` = Int.tmod, results kept in the int64 range by wrapI64).\n    `items`: the parameter; `procs`: runtime.GOMAXPROCS(0) (the runtime guarantees >= 1); `none` = integer divide by zero (panic)")
+	fmt.Fprintf(&b, "def %s (items procs : Int) : Option Int :=\n  %s\n\n", k.spec.name, strings.Join(lines, "\n  "))
+	k.emitGuardTexts(&b, texts)
+	return b.String()
+}
+
+// ---- 2. senderID: the name → id resolution of the gRPC receiver ----
+//
+//	var V uint64
+//	if C, OK := ctx.Value(&interceptors.ClientName{}).(string); OK {
+//	    for ID, P := range h.peers.All() { if <cond over P.Name, C, ID> { V = <e>; [break] } }
+//	}
+//	return V
+//
+// h.peers.All() is a map: the generated loop takes its entries as a list in iteration order.
+
+const clientNameKey = "&interceptors.ClientName{}"
+
+func transSenderID(k *ktrans, fd *ast.FuncDecl) string {
+	ps := flatParams(fd)
+	if k.recv == "" || len(ps) != 1 || ps[0].typ != "context.Context" || ps[0].name == "_" || k.reserved(ps[0].name) || resultTypes(fd) != "uint64" {
+		k.fail(nil, "%s is not func (h) (context.Context) uint64", k.spec.fn)
+	}
+	ctx := ps[0].name
+	k.roots[ctx] = true
+	var stmts []ast.Stmt
+	for _, st := range fd.Body.List {
+		if !k.silentStmt(st) {
+			stmts = append(stmts, st)
+		}
+	}
+	if len(stmts) != 3 {
+		k.fail(nil, "%s is not `var v uint64; if client, ok := ctx.Value(…).(string); ok { loop }; return v`", k.spec.fn)
+	}
+	// var V uint64
+	result := ""
+	if d, ok := stmts[0].(*ast.DeclStmt); ok {
+		if g, ok := d.Decl.(*ast.GenDecl); ok && g.Tok == token.VAR && len(g.Specs) == 1 {
+			if vs, ok := g.Specs[0].(*ast.ValueSpec); ok && len(vs.Names) == 1 && len(vs.Values) == 0 && vs.Type != nil && src(vs.Type) == "uint64" {
+				result = vs.Names[0].Name
+			}
+		}
+	}
+	if result == "" || result == "_" || k.reserved(result) {
+		k.fail(stmts[0], "first statement is not `var v uint64`")
+	}
+	if r, ok := stmts[2].(*ast.ReturnStmt); !ok || len(r.Results) != 1 || src(r.Results[0]) != result {
+		k.fail(stmts[2], "last statement is not `return %s`", result)
+	}
+	// if C, OK := ctx.Value(key).(string); OK { … }
+	ifs, ok := stmts[1].(*ast.IfStmt)
+	if !ok || ifs.Init == nil || ifs.Else != nil {
+		k.fail(stmts[1], "second statement is not the type assertion of the client name")
+	}
+	as, ok := ifs.Init.(*ast.AssignStmt)
+	if !ok || as.Tok != token.DEFINE || len(as.Lhs) != 2 || len(as.Rhs) != 1 {
+		k.fail(ifs, "unsupported form of the client-name lookup")
+	}
+	ta, ok := as.Rhs[0].(*ast.TypeAssertExpr)
+	if !ok || ta.Type == nil || src(ta.Type) != "string" || src(ta.X) != ctx+".Value("+clientNameKey+")" {
+		k.fail(ifs, "client name is not "+ctx+".Value("+clientNameKey+").(string)")
+	}
+	cl, okc := as.Lhs[0].(*ast.Ident)
+	okv, oko := as.Lhs[1].(*ast.Ident)
+	if !okc || !oko || cl.Name == "_" || okv.Name == "_" || cl.Name == okv.Name || k.reserved(cl.Name) || k.reserved(okv.Name) ||
+		cl.Name == result || okv.Name == result || src(ifs.Cond) != okv.Name {
+		k.fail(ifs, "unsupported form of the client-name lookup")
+	}
+	// the loop
+	var loop *ast.RangeStmt
+	for _, st := range ifs.Body.List {
+		if k.silentStmt(st) {
+			continue
+		}
+		r, ok := st.(*ast.RangeStmt)
+		if !ok || loop != nil {
+			k.fail(st, "the block of the client-name lookup is not a single loop")
+		}
+		loop = r
+	}
+	if loop == nil {
+		k.fail(ifs, "the block of the client-name lookup is not a single loop")
+	}
+	key, _ := loop.Key.(*ast.Ident)
+	val, _ := loop.Value.(*ast.Ident)
+	if loop.Tok != token.DEFINE || key == nil || val == nil || val.Name == "_" || src(loop.X) != k.recv+".peers.All()" {
+		k.fail(loop, "loop is not `for id, peer := range "+k.recv+".peers.All()`")
+	}
+	for _, n := range []string{key.Name, val.Name} {
+		if n != "_" && (k.reserved(n) || n == cl.Name || n == okv.Name || n == result) {
+			k.fail(loop, "loop variable shadows another name")
+		}
+	}
+	if key.Name == val.Name {
+		k.fail(loop, "loop variables coincide")
+	}
+	env := map[string]lexpr{cl.Name: {"caller", tString, true}}
+	if key.Name != "_" {
+		env[key.Name] = lexpr{"p.1", tNat, true}
+	}
+	k.roots[val.Name] = true
+	k.spec.params = []kparam{{val.Name + ".Name", "p.2", "String", tString}}
+	var guard *ast.IfStmt
+	for _, st := range loop.Body.List {
+		if k.silentStmt(st) {
+			continue
+		}
+		g, ok := plainIf(st)
+		if !ok || guard != nil {
+			k.fail(st, "loop body is not a single if")
+		}
+		guard = g
+	}
+	if guard == nil {
+		k.fail(loop, "loop body is not a single if")
+	}
+	c := k.cond(guard.Cond, env)
+	var body []ast.Stmt
+	for _, st := range guard.Body.List {
+		if !k.silentStmt(st) {
+			body = append(body, st)
+		}
+	}
+	brk := false
+	if len(body) == 2 {
+		if br, ok := body[1].(*ast.BranchStmt); !ok || br.Tok != token.BREAK || br.Label != nil {
+			k.fail(body[1], "unsupported statement after the assignment of the result")
+		}
+		brk = true
+		body = body[:1]
+	}
+	if len(body) != 1 {
+		k.fail(guard, "block is not `%s = e` optionally followed by break", result)
+	}
+	set, ok := body[0].(*ast.AssignStmt)
+	if !ok || set.Tok != token.ASSIGN || len(set.Lhs) != 1 || len(set.Rhs) != 1 || src(set.Lhs[0]) != result {
+		k.fail(body[0], "block is not `%s = e` optionally followed by break", result)
+	}
+	v := k.expr(set.Rhs[0], env)
+	if v.t == tUntyped {
+		v = k.coerce(set, v, tNat)
+	}
+	if v.t != tNat {
+		k.fail(set, "result assigned a value that is not a uint64")
+	}
+	hit := paren(v)
+	text := src(guard.Cond) + " => " + src(set) + "; break"
+	if !brk {
+		hit = "senderIdLoopGen caller " + paren(v) + " ps"
+		text = src(guard.Cond) + " => " + src(set) + "  [no break: the loop goes on]"
+	}
+	var b strings.Builder
+	k.docHead(&b, "the loop over the map h.peers.All(): entries (id, name) in ITERATION order (unspecified in Go), `acc` = the result variable so far")
+	fmt.Fprintf(&b, "def senderIdLoopGen (caller : String) (acc : Nat) : List (Nat × String) → Nat\n  | [] => acc\n  | p :: ps => if %s then %s else senderIdLoopGen caller acc ps\n\n", c.s, hit)
+	k.docHead(&b, "for a context that carries the client name `caller`; the result variable starts as 0 (`var "+result+" uint64`)")
+	fmt.Fprintf(&b, "def %s (peers : List (Nat × String)) (caller : String) : Nat :=\n  senderIdLoopGen caller 0 peers\n\n", k.spec.name)
+	k.docHead(&b, "the whole function; `client` = "+ctx+".Value("+clientNameKey+") if it is a string (`none`: the loop is skipped)")
+	fmt.Fprintf(&b, "def senderIdCtxGen (client : Option String) (peers : List (Nat × String)) : Nat :=\n  match client with\n  | none => 0\n  | some caller => %s peers caller\n\n", k.spec.name)
+	k.emitGuardTexts(&b, []string{
+		src(stmts[0]),
+		src(as) + "; " + okv.Name + " =>",
+		"  for " + key.Name + ", " + val.Name + " := range " + src(loop.X) + " {  [map: iteration order unspecified]",
+		"    " + text,
+		"  }",
+		src(stmts[2]),
+	})
+	return b.String()
+}
+
+// ---- package-level facts the OnCommit / getGeneration kernels rely on ----
+
+// loadPkgErrs: the package-level `var ErrX = errors.New("…")` of the kernel's package (all non-test files).
+func (k *ktrans) loadPkgErrs() {
+	dir := filepath.Join(k.repo, filepath.Dir(k.spec.file))
+	ents, err := os.ReadDir(dir)
+	if err != nil {
+		k.fail(nil, "cannot read the package directory of %s", k.spec.file)
+	}
+	for _, e := range ents {
+		if e.IsDir() || !strings.HasSuffix(e.Name(), ".go") || strings.HasSuffix(e.Name(), "_test.go") {
+			continue
+		}
+		f := parse(filepath.Join(dir, e.Name()))
+		if f == nil {
+			continue
+		}
+		for _, d := range f.Decls {
+			g, ok := d.(*ast.GenDecl)
+			if !ok || g.Tok != token.VAR {
+				continue
+			}
+			for _, sp := range g.Specs {
+				vs, ok := sp.(*ast.ValueSpec)
+				if !ok || len(vs.Names) != 1 || len(vs.Values) != 1 || vs.Type != nil {
+					continue
+				}
+				if call, ok := vs.Values[0].(*ast.CallExpr); ok && src(call.Fun) == "errors.New" && len(call.Args) == 1 {
+					if _, lit := call.Args[0].(*ast.BasicLit); lit {
+						k.pkgErrs[vs.Names[0].Name] = true
+					}
+				}
+			}
+		}
+	}
+}
+
+// getGenerationError: getGeneration (generation.go of the same package) returns either (nil, E) for ONE package error
+// variable E, or (x, nil).  So `errors.Is(err, E)` after a call is the same as `err != nil`, and a nil error comes
+// with the generation.  Returns E.
+func (k *ktrans) getGenerationError() string {
+	file := filepath.Join(k.repo, filepath.Dir(k.spec.file), "generation.go")
+	fd := funcDecl(parse(file), "getGeneration")
+	if fd == nil || fd.Body == nil || resultTypes(fd) != "*generation, error" {
+		k.fail(nil, "getGeneration not found in generation.go, or not returning (*generation, error)")
+	}
+	e := ""
+	ast.Inspect(fd.Body, func(n ast.Node) bool {
+		switch x := n.(type) {
+		case *ast.FuncLit:
+			k.fail(x, "function literal in getGeneration")
+		case *ast.ReturnStmt:
+			if len(x.Results) != 2 {
+				k.fail(x, "getGeneration: return of other than two values")
+			}
+			r0, r1 := src(x.Results[0]), src(x.Results[1])
+			switch {
+			case r1 == "nil" && r0 != "nil":
+			case r0 == "nil" && k.pkgErrs[r1] && (e == "" || e == r1):
+				e = r1
+			default:
+				k.fail(x, "getGeneration: return that is neither (nil, <one package error>) nor (generation, nil)")
+			}
+		}
+		return true
+	})
+	if e == "" {
+		k.fail(nil, "getGeneration never returns an error")
+	}
+	return e
+}
+
+// pureExpr: evaluation has no effect on anything (it may build a value for an error message).
+func pureExpr(e ast.Expr) bool {
+	switch x := e.(type) {
+	case *ast.BasicLit, *ast.Ident:
+		return true
+	case *ast.ParenExpr:
+		return pureExpr(x.X)
+	case *ast.SelectorExpr:
+		return pureExpr(x.X)
+	case *ast.IndexExpr:
+		return pureExpr(x.X) && pureExpr(x.Index)
+	case *ast.CallExpr:
+		args := x.Args
+		switch src(x.Fun) {
+		case "make":
+			if len(args) == 0 {
+				return false
+			}
+			args = args[1:] // the first argument is a type
+		case "fmt.Sprintf", "uint64", "int64", "uint32", "int", "len", "append":
+		default:
+			return false
+		}
+		for _, a := range args {
+			if !pureExpr(a) {
+				return false
+			}
+		}
+		return true
+	}
+	return false
+}
+
+// localOnly: a statement of a refusing block that can only change variables declared inside that block (it prepares
+// the error message).  locals: the names declared so far in the block.
+func (k *ktrans) localOnly(st ast.Stmt, locals map[string]bool) bool {
+	if k.silentStmt(st) {
+		return true
+	}
+	fresh := func(e ast.Expr) bool {
+		id, ok := e.(*ast.Ident)
+		return ok && (id.Name == "_" || !k.reserved(id.Name))
+	}
+	switch x := st.(type) {
+	case *ast.AssignStmt:
+		for _, r := range x.Rhs {
+			if !pureExpr(r) {
+				return false
+			}
+		}
+		for _, l := range x.Lhs {
+			switch x.Tok {
+			case token.DEFINE:
+				if !fresh(l) {
+					return false
+				}
+			case token.ASSIGN:
+				// v = e   or   v[i] = e   for a block-local v
+				if ix, ok := l.(*ast.IndexExpr); ok {
+					if !pureExpr(ix.Index) {
+						return false
+					}
+					l = ix.X
+				}
+				if id, ok := l.(*ast.Ident); !ok || !locals[id.Name] {
+					return false
+				}
+			default:
+				return false
+			}
+		}
+		if x.Tok == token.DEFINE {
+			for _, l := range x.Lhs {
+				locals[l.(*ast.Ident).Name] = true
+			}
+		}
+		return true
+	case *ast.RangeStmt:
+		if x.Tok != token.DEFINE || !pureExpr(x.X) {
+			return false
+		}
+		for _, v := range []ast.Expr{x.Key, x.Value} {
+			if v != nil && !fresh(v) {
+				return false
+			}
+		}
+		for _, bs := range x.Body.List {
+			if !k.localOnly(bs, locals) {
+				return false
+			}
+		}
+		return true
+	}
+	return false
+}
+
+// refusalGuardLocal: `if cond { <localOnly statements>; return …, <error> }` — whatever the block computes, control
+// leaves the function with an error.
+func (k *ktrans) refusalGuardLocal(st ast.Stmt, env map[string]lexpr, nres int) (lexpr, string) {
+	x, ok := plainIf(st)
+	if !ok {
+		k.fail(st, "if with init or else")
+	}
+	c := k.cond(x.Cond, env)
+	if len(x.Body.List) == 0 {
+		k.fail(st, "empty guard block")
+	}
+	locals := map[string]bool{}
+	for i, bs := range x.Body.List {
+		if i == len(x.Body.List)-1 {
+			if !k.isRefusal(bs, nres) {
+				k.fail(bs, "guard block does not end in a return of an error")
+			}
+			break
+		}
+		if !k.localOnly(bs, locals) {
+			k.fail(bs, "statement of a guard block that may have an effect outside the block")
+		}
+	}
+	return c, src(x.Cond) + " => refuse"
+}
+
+// ---- 3. OnCommit: the refusal guards between the lookup of the generation and the key aggregation ----
+//
+//	G, err := s.getGeneration(ctx, account); if errors.Is(err, E) { return …, <error> }      (E: getGenerationError)
+//	guards over len(G.sharedSecrets) ↦ nSecrets, len(G.sharedVVecs) ↦ nVvecs, len(G.participants) ↦ nParticipants
+//	for _, P := range G.participants { _, a := G.sharedSecrets[P.ID]; _, b := G.sharedVVecs[P.ID]; guards over a, b }
+//	                                                             ↦ commitListedGen over the list of (a, b), one per participant
+//	first other statement: the translation stops (key aggregation)
+
+func transOnCommit(k *ktrans, fd *ast.FuncDecl) string {
+	ps := flatParams(fd)
+	if k.recv == "" || len(ps) != 4 || ps[0].typ != "context.Context" || ps[1].typ != "uint64" || ps[2].typ != "string" || ps[3].typ != "[]byte" ||
+		resultTypes(fd) != "[]byte, []byte, error" {
+		k.fail(nil, "%s is not func (s) (ctx, uint64, string, []byte) ([]byte, []byte, error)", k.spec.fn)
+	}
+	ctx, account := ps[0].name, ps[2].name
+	if ctx == "_" || account == "_" || ctx == account || k.reserved(ctx) || k.reserved(account) {
+		k.fail(nil, "unusable parameter names")
+	}
+	for _, p := range ps[1:] {
+		if p.name != "_" {
+			k.roots[p.name] = true
+		}
+	}
+	k.loadPkgErrs()
+	notFound := k.getGenerationError()
+	env := map[string]lexpr{}
+	list := fd.Body.List
+	var texts []string
+	// phase 0: up to the lookup of the generation
+	gen := ""
+	i := 0
+	for ; i < len(list) && gen == ""; i++ {
+		st := list[i]
+		if k.silentStmt(st) || k.mutexStmt(st) {
+			continue
+		}
+		as, ok := st.(*ast.AssignStmt)
+		if !ok || as.Tok != token.DEFINE || len(as.Lhs) != 2 || len(as.Rhs) != 1 || src(as.Lhs[1]) != "err" ||
+			src(as.Rhs[0]) != k.recv+".getGeneration("+ctx+", "+account+")" {
+			k.fail(st, "unsupported statement before the lookup of the generation")
+		}
+		g, ok := as.Lhs[0].(*ast.Ident)
+		if !ok || g.Name == "_" || k.reserved(g.Name) || k.silent[g.Name] || i+1 >= len(list) {
+			k.fail(st, "unsupported form of the lookup of the generation")
+		}
+		chk, ok := plainIf(list[i+1])
+		if !ok || (!isErrNotNil(chk.Cond) && src(chk.Cond) != "errors.Is(err, "+notFound+")") {
+			k.fail(list[i+1], "the error of the lookup is not checked immediately (err != nil, or errors.Is(err, %s))", notFound)
+		}
+		r, ok := k.silentTail(chk.Body).(*ast.ReturnStmt)
+		if !ok || len(r.Results) != 3 || !(src(r.Results[2]) == "err" || k.isRefusal(r, 3)) {
+			k.fail(chk, "error arm of the lookup does not return an error")
+		}
+		gen = g.Name
+		texts = append(texts, src(as)+"; "+src(chk.Cond)+" => refuse  [getGeneration returns (nil, "+notFound+") or (generation, nil)]")
+		i++
+	}
+	if gen == "" {
+		k.fail(nil, "%s does not look up the generation", k.spec.fn)
+	}
+	k.roots[gen] = true
+	k.lenSel[gen+".sharedSecrets"] = "nSecrets"
+	k.lenSel[gen+".sharedVVecs"] = "nVvecs"
+	k.lenSel[gen+".participants"] = "nParticipants"
+	// phase 1: the acceptance conditions
+	var conds []string
+	listedDef := ""
+	stopped := false
+	for ; i < len(list) && !stopped; i++ {
+		st := list[i]
+		if k.silentStmt(st) {
+			continue
+		}
+		switch x := st.(type) {
+		case *ast.IfStmt:
+			c, text := k.refusalGuardLocal(st, env, 3)
+			conds = append(conds, c.s)
+			texts = append(texts, text)
+		case *ast.RangeStmt:
+			if listedDef != "" || src(x.X) != gen+".participants" {
+				// a second loop, or a loop over something else: the aggregation has begun
+				texts = append(texts, "[translation stops at: "+loopHead(x)+"]")
+				stopped = true
+				break
+			}
+			var ltexts []string
+			listedDef, ltexts = k.commitListedLoop(x, gen)
+			conds = append(conds, "¬ commitListedGen listed")
+			texts = append(texts, ltexts...)
+		default:
+			texts = append(texts, "[translation stops at: "+src(st)+"]")
+			stopped = true
+		}
+	}
+	if !stopped {
+		k.fail(nil, "%s consists of guards only", k.spec.fn)
+	}
+	if listedDef == "" {
+		k.fail(nil, "%s has no loop over the generation's participants before the aggregation", k.spec.fn)
+	}
+	var b strings.Builder
+	b.WriteString(listedDef)
+	k.docHead(&b, "the conditions between the lookup of the generation and the key aggregation, `true` = none of them refuses.\n    `nSecrets`: len(generation.sharedSecrets); `nVvecs`: len(generation.sharedVVecs); `nParticipants`: len(generation.participants);\n    `listed`: per listed participant, in order, (its ID is a key of sharedSecrets, its ID is a key of sharedVVecs)")
+	fmt.Fprintf(&b, "def %s (nSecrets nVvecs nParticipants : Nat) (listed : List (Bool × Bool)) : Bool :=\n  %s\n\n", k.spec.name, boolChain(conds, "  "))
+	k.emitGuardTexts(&b, texts)
+	return b.String()
+}
+
+func loopHead(r *ast.RangeStmt) string {
+	h := "for "
+	if r.Key != nil {
+		h += src(r.Key)
+		if r.Value != nil {
+			h += ", " + src(r.Value)
+		}
+		h += " " + r.Tok.String() + " "
+	}
+	return h + "range " + src(r.X) + " { … }"
+}
+
+// commitListedLoop recognises
+//
+//	for _, P := range G.participants {            (or: for i := range G.participants, with G.participants[i].ID)
+//	    _, a := G.sharedSecrets[P.ID]             ↦ p.1
+//	    _, b := G.sharedVVecs[P.ID]               ↦ p.2
+//	    if <cond over a, b> { …; return …, <error> }
+//	}
+//
+// and emits the loop as a recursive function over the list of (a, b) pairs.
+func (k *ktrans) commitListedLoop(r *ast.RangeStmt, gen string) (string, []string) {
+	bad := func(n ast.Node, why string) {
+		k.fail(n, "loop over the participants is not of the recognised shape (%s)", why)
+	}
+	key, _ := r.Key.(*ast.Ident)
+	if r.Tok != token.DEFINE || key == nil {
+		bad(r, "for _, p := range …")
+	}
+	elem := ""
+	if r.Value == nil {
+		if key.Name == "_" || k.reserved(key.Name) {
+			bad(r, "index variable")
+		}
+		k.roots[key.Name] = true
+		elem = gen + ".participants[" + key.Name + "].ID"
+	} else {
+		val, _ := r.Value.(*ast.Ident)
+		if val == nil || key.Name != "_" || val.Name == "_" || k.reserved(val.Name) {
+			bad(r, "for _, p := range …")
+		}
+		k.roots[val.Name] = true
+		elem = val.Name + ".ID"
+	}
+	env := map[string]lexpr{}
+	texts := []string{strings.TrimSuffix(loopHead(r), " … }")}
+	var conds []string
+	for _, st := range r.Body.List {
+		if k.silentStmt(st) {
+			continue
+		}
+		switch x := st.(type) {
+		case *ast.AssignStmt:
+			// _, a := G.<map>[elem]
+			if x.Tok != token.DEFINE || len(x.Lhs) != 2 || len(x.Rhs) != 1 || src(x.Lhs[0]) != "_" {
+				bad(st, "_, present := map[id]")
+			}
+			flag, okf := x.Lhs[1].(*ast.Ident)
+			ix, oki := x.Rhs[0].(*ast.IndexExpr)
+			if !okf || !oki || flag.Name == "_" || k.reserved(flag.Name) || src(ix.Index) != elem {
+				bad(st, "_, present := map[id]")
+			}
+			if _, used := env[flag.Name]; used {
+				bad(st, "flag declared twice")
+			}
+			switch src(ix.X) {
+			case gen + ".sharedSecrets":
+				env[flag.Name] = lexpr{"p.1", tBool, true}
+			case gen + ".sharedVVecs":
+				env[flag.Name] = lexpr{"p.2", tBool, true}
+			default:
+				bad(st, "membership in a map other than sharedSecrets / sharedVVecs")
+			}
+			texts = append(texts, "  "+src(st))
+		case *ast.IfStmt:
+			c, text := k.refusalGuard(st, env, 3)
+			conds = append(conds, c.s)
+			texts = append(texts, "  "+text)
+		default:
+			bad(st, "unsupported statement")
+		}
+	}
+	if len(conds) == 0 {
+		bad(r, "no guard")
+	}
+	texts = append(texts, "}")
+	var b strings.Builder
+	k.docHead(&b, "the loop over generation.participants: `false` = some iteration refuses")
+	b.WriteString("def commitListedGen : List (Bool × Bool) → Bool\n  | [] => true\n  | p :: ps =>\n    ")
+	for _, c := range conds {
+		b.WriteString("if " + c + " then false\n    else ")
+	}
+	b.WriteString("commitListedGen ps\n\n")
+	return b.String(), texts
+}
+
+// ---- 4. getGeneration: lookup, expiry test, result ----
+//
+//	G, E := s.generations[account]                                       E ↦ present
+//	guards: if cond { …log…; [delete(s.generations, account)]; return nil, <package error> }
+//	        over E, time.Since(G.processStarted) ↦ now - started, s.generationTimeout ↦ timeout
+//	return G, nil
+//
+// The expiry test is the one guard that reads the clock.
+
+func transGetGeneration(k *ktrans, fd *ast.FuncDecl) string {
+	ps := flatParams(fd)
+	if k.recv == "" || len(ps) != 2 || ps[0].typ != "context.Context" || ps[1].typ != "string" || resultTypes(fd) != "*generation, error" {
+		k.fail(nil, "%s is not func (s) (context.Context, string) (*generation, error)", k.spec.fn)
+	}
+	account := ps[1].name
+	if account == "_" || k.reserved(account) {
+		k.fail(nil, "unusable parameter name")
+	}
+	k.roots[account] = true
+	k.loadPkgErrs()
+	k.spec.params = []kparam{{k.recv + ".generationTimeout", "timeout", "Nat", tNat}}
+	env := map[string]lexpr{}
+	type arm struct {
+		cond    string
+		deletes bool
+	}
+	var arms []arm
+	var texts []string
+	gen, expiry := "", ""
+	closed := false
+	mapSrc := k.recv + ".generations"
+	for _, st := range fd.Body.List {
+		if closed {
+			k.fail(st, "statement after the final return")
+		}
+		if k.silentStmt(st) {
+			continue
+		}
+		switch x := st.(type) {
+		case *ast.AssignStmt:
+			ix, isIx := x.Rhs[0].(*ast.IndexExpr)
+			if !isIx || len(x.Rhs) != 1 || len(x.Lhs) != 2 || x.Tok != token.DEFINE || gen != "" || src(ix.X) != mapSrc || src(ix.Index) != account {
+				k.fail(st, "unsupported statement (expected: g, exists := %s[%s])", mapSrc, account)
+			}
+			g, okg := x.Lhs[0].(*ast.Ident)
+			e, oke := x.Lhs[1].(*ast.Ident)
+			if !okg || !oke || g.Name == "_" || e.Name == "_" || g.Name == e.Name || k.reserved(g.Name) || k.reserved(e.Name) || k.silent[g.Name] || k.silent[e.Name] {
+				k.fail(st, "unsupported form of the lookup")
+			}
+			gen = g.Name
+			k.roots[gen] = true
+			k.sinceOf[gen+".processStarted"] = "started"
+			env[e.Name] = lexpr{"present", tBool, true}
+			texts = append(texts, src(st)+"  [map lookup: "+e.Name+" ↦ present]")
+		case *ast.IfStmt:
+			g, ok := plainIf(st)
+			if !ok {
+				k.fail(st, "if with init or else")
+			}
+			c := k.cond(g.Cond, env)
+			deletes := false
+			for j, bs := range g.Body.List {
+				if j == len(g.Body.List)-1 {
+					r, isRet := bs.(*ast.ReturnStmt)
+					if !isRet || len(r.Results) != 2 || src(r.Results[0]) != "nil" || !k.pkgErrs[src(r.Results[1])] {
+						k.fail(bs, "guard block does not end in `return nil, <package error>`")
+					}
+					break
+				}
+				if k.silentStmt(bs) {
+					continue
+				}
+				if es, isExpr := bs.(*ast.ExprStmt); isExpr && src(es.X) == "delete("+mapSrc+", "+account+")" && !deletes {
+					deletes = true
+					continue
+				}
+				k.fail(bs, "unsupported statement in a guard block")
+			}
+			if len(g.Body.List) == 0 {
+				k.fail(st, "empty guard block")
+			}
+			if mentions(c.s, []string{"now"}) {
+				if expiry != "" {
+					k.fail(st, "more than one guard reads the clock")
+				}
+				expiry = c.s
+			}
+			arms = append(arms, arm{c.s, deletes})
+			text := src(g.Cond) + " => "
+			if deletes {
+				text += "delete(" + mapSrc + ", " + account + "); "
+			}
+			texts = append(texts, text+"return nil, "+src(g.Body.List[len(g.Body.List)-1].(*ast.ReturnStmt).Results[1]))
+		case *ast.ReturnStmt:
+			if gen == "" || len(x.Results) != 2 || src(x.Results[0]) != gen || src(x.Results[1]) != "nil" {
+				k.fail(st, "final return is not `return <generation>, nil`")
+			}
+			texts = append(texts, src(st))
+			closed = true
+		default:
+			k.fail(st, "unsupported statement")
+		}
+	}
+	if !closed {
+		k.fail(nil, "%s does not end in `return <generation>, nil`", k.spec.fn)
+	}
+	if expiry == "" {
+		k.fail(nil, "%s has no guard that reads the clock", k.spec.fn)
+	}
+	var b strings.Builder
+	k.docHead(&b, "the one guard that reads the clock.  `now - started`: time.Since(generation.processStarted) (monotonic clock: never negative,\n    so the truncated subtraction of Nat is exact); `timeout`: s.generationTimeout (a Duration; the comparison is between Durations)")
+	fmt.Fprintf(&b, "def %s (now started timeout : Nat) : Bool :=\n  decide (%s)\n\n", k.spec.name, expiry)
+	k.docHead(&b, "the whole function: (a generation is returned, the map entry is deleted); `present`: the account has an entry in s.generations")
+	b.WriteString("def getGenerationGen (present : Bool) (now started timeout : Nat) : Bool × Bool :=\n  ")
+	for _, a := range arms {
+		fmt.Fprintf(&b, "if %s then (false, %v)\n  else ", a.cond, a.deletes)
+	}
+	b.WriteString("(true, false)\n\n")
+	k.emitGuardTexts(&b, texts)
+	return b.String()
+}
+
+// ---- 5. Suitable: the refusal guards before the first allocation ----
+//
+//	guards: if cond { …; return nil, <error> }   over threshold (uint32 parameter), len(s.peers) ↦ npeers
+//	pure local definitions without allocation (skipped; a guard reading them is untranslatable)
+//	first statement containing make(T, n, …): the allocation; n ↦ the size
+
+func containsMake(n ast.Node) (found *ast.CallExpr) {
+	ast.Inspect(n, func(m ast.Node) bool {
+		if c, ok := m.(*ast.CallExpr); ok && found == nil {
+			if id, ok := c.Fun.(*ast.Ident); ok && (id.Name == "make" || id.Name == "new" || id.Name == "append") {
+				found = c
+			}
+		}
+		return found == nil
+	})
+	return found
+}
+
+func transSuitable(k *ktrans, fd *ast.FuncDecl) string {
+	ps := flatParams(fd)
+	if k.recv == "" || len(ps) != 1 || ps[0].typ != "uint32" || ps[0].name == "_" || k.reserved(ps[0].name) || resultTypes(fd) != "[]*core.Endpoint, error" {
+		k.fail(nil, "%s is not func (s) (uint32) ([]*core.Endpoint, error)", k.spec.fn)
+	}
+	th := ps[0].name
+	k.roots[th] = true
+	k.u32["threshold"] = true
+	k.lenSel[k.recv+".peers"] = "npeers"
+	env := map[string]lexpr{th: {"threshold", tNat, true}}
+	var conds, texts []string
+	size := ""
+	for _, st := range fd.Body.List {
+		if k.silentStmt(st) {
+			continue
+		}
+		if g, isIf := st.(*ast.IfStmt); isIf && containsMake(g.Cond) == nil && (g.Init == nil || containsMake(g.Init) == nil) {
+			c, text := k.refusalGuard(st, env, 2)
+			conds = append(conds, c.s)
+			texts = append(texts, text)
+			continue
+		}
+		if call := containsMake(st); call != nil {
+			// the first allocation: it must be `x := make(T, n)` / make(T, n, c) sized by a translatable expression
+			as, ok := st.(*ast.AssignStmt)
+			if !ok || len(as.Rhs) != 1 || as.Rhs[0] != ast.Expr(call) || src(call.Fun) != "make" || len(call.Args) < 2 {
+				k.fail(st, "first allocation is not `x := make(T, n)`")
+			}
+			n := k.expr(call.Args[len(call.Args)-1], env) // the capacity if given, else the length
+			if n.t == tUntyped {
+				n = k.coerce(st, n, tNat)
+			}
+			if n.t != tNat {
+				k.fail(st, "allocation size is not an unsigned value")
+			}
+			size = paren(n)
+			texts = append(texts, "[first allocation: "+src(st)+"]")
+			break
+		}
+		// a local definition that neither allocates nor calls anything: skipped (not readable by later guards)
+		as, ok := st.(*ast.AssignStmt)
+		if !ok || as.Tok != token.DEFINE {
+			k.fail(st, "unsupported statement before the first allocation")
+		}
+		for _, l := range as.Lhs {
+			if id, isId := l.(*ast.Ident); !isId || k.reserved(id.Name) {
+				k.fail(st, "unsupported statement before the first allocation")
+			}
+		}
+		for _, r := range as.Rhs {
+			if !pureArg(r) {
+				k.fail(st, "unsupported statement before the first allocation")
+			}
+		}
+		texts = append(texts, "[skipped local: "+src(st)+"]")
+	}
+	if size == "" {
+		k.fail(nil, "%s allocates nothing", k.spec.fn)
+	}
+	var b strings.Builder
+	k.docHead(&b, "the guards before the first allocation, `true` = one of them refuses.\n    `threshold`: the uint32 parameter; `npeers`: len(s.peers)")
+	fmt.Fprintf(&b, "def %s (threshold npeers : Nat) : Bool :=\n  ", k.spec.name)
+	for _, c := range conds {
+		b.WriteString("if " + c + " then true\n  else ")
+	}
+	b.WriteString("false\n\n")
+	k.docHead(&b, "… and the size of the first allocation (`make`) if none of them does: `none` = refused before anything is allocated")
+	fmt.Fprintf(&b, "def suitableAllocGen (threshold npeers : Nat) : Option Nat :=\n  if %s threshold npeers then none else some %s\n\n", k.spec.name, size)
+	k.emitGuardTexts(&b, texts)
+	return b.String()
 }
